@@ -137,7 +137,7 @@ PROPS = {
     "C09": dict(
         module="OrbitModel.Properties.C09",
         theorems=["Orbit.C09.other_databases_untouched", "Orbit.C09.broadcast_changes_only_the_source",
-                  "Orbit.C09.published_under_own_address", "Orbit.C09.pinned_tree_cross_talk", "Orbit.C09.store_topic_is_its_address_tied_to_go_text"],
+                  "Orbit.C09.published_under_own_address", "Orbit.C09.pinned_tree_cross_talk", "Orbit.C09.store_topic_is_its_address_tied_to_go_text", "Orbit.C09.new_peer_event_names_its_database_tied_to_go_text"],
         families=[("multidb", 100, 3000, 10)],
         corr_fields={"values", "heads", "idx", "len", "status", "loadq", "rev"},
         nontrivial=lambda lines: sum(1 for l in lines if l.startswith("opened ")) >= 1 and sum(1 for l in lines if l.startswith("ack ")) >= 2,
@@ -309,7 +309,7 @@ MANIFEST_TEXT = {
         note="Partial by nature: goroutine termination, hangs and OS-level directory effects are runtime facts sampled by the harness (census, deadlines), not proved; Drop's scope is checked on the in-memory cache manager that stands for the leveldb directories.",
         technique="Lean 4 proof (lifecycle state machine; emitter shutdown invariant) with deadline/census-based harness"),
     "C09": dict(
-        text="Kernel-checked theorem over a bus model of the instance: an event originating in one database (write, load-added, merged batch) leaves every other store of the instance exactly as it was (contents, index, status, emitted events, published messages), and whatever a store publishes carries its own address; the pinned tree's cross-talk is refuted by a decide-checked witness reproduced on the real stores before the fix: commit. The harness opens 2-4 databases on shared instances and checks isolation of contents, status, per-address event counters and announcement channels after every step.",
+        text="Kernel-checked theorem over a bus model of the instance: an event originating in one database (write, load-added, merged batch) leaves every other store of the instance exactly as it was (contents, index, status, emitted events, published messages), and whatever a store publishes carries its own address; the pinned tree's cross-talk is refuted by a decide-checked witness reproduced on the real stores before the fix: commit. The harness opens 2-4 databases on shared instances and checks isolation of contents, status, per-address event counters and announcement channels after every step. Every store event on the shared bus names its database: the new-peer event carries the emitting store's address (finding F43, fix: commit; regenerated from the Go text; the multidb family fails on any store event without one).",
         note="Trusted: Lean kernel + standard axioms; the bus model (broadcast to every listener; which listeners filter on what) is hand-written from base_store.go and validated by the multidb family; runtime delivery timing of the libp2p eventbus is sampled, not proved.",
         technique="Lean 4 proof (listener filter case analysis over a broadcast model) with differential correspondence on multi-database instances"),
     "C10": dict(
